@@ -149,9 +149,10 @@ CLAIMED = {
     "C13": entry(
         "any way of cutting a run of the instruction loop into budgets gives the same state and first event as one budget of the same total, for every "
         "program, state and cut; at the API, execute(n+m) = execute(n); execute(m) while the machine stays running; interrupt() saves exactly what CONT "
-        "restores (Props/C13.v, Proofs/Slicing.v).",
-        "the same sessions under seven quanta, interrupted after every k-th execute(1) call with optional inspection and CONT, and with STOP inserted at "
-        "statement boundaries; outputs must equal the uninterrupted run modulo the ?BREAK block and its forced line break.",
+        "restores; a pending key wait answers 'key wanted' again without changing the machine, and CONT after an interrupt taken during the wait comes "
+        "back to the same wait, address, stack and variables (Props/C13.v, Proofs/Slicing.v).",
+        "the same sessions under seven quanta, interrupted after every k-th execute(1) call with optional inspection and CONT, with STOP inserted at "
+        "statement boundaries, and programs waiting for keys (INKEY$) interrupted while each wait is pending; outputs must equal the uninterrupted run modulo the ?BREAK block and its forced line break.",
         "PARTIAL: CONT transparency (STOP/END/interrupt then CONT reaches the state of the uninterrupted run) is decided by the monitor, not proved.",
         "Coq slicing theorem + schedule-enumerating differential and relational check"),
     "C14": entry(
@@ -190,8 +191,9 @@ CLAIMED = {
         "state: the prompt event is the prompt text followed by '? ' with capitals off exactly for the leading-comma flag; a reply with the wrong field "
         "count or over the length limit is refused as a whole (nothing changes but the state), reported as REDO FROM START, and the machine prompts again; an "
         "accepted reply puts a return address under its fields without touching a variable; a field becomes a string (trimmed, one pair of quotes "
-        "removed) or a number (0 when empty); an error while storing cuts the stack back, returns to the INPUT statement and refuses the reply "
-        "(Props/C17.v, Proofs/Input.v, InputProto.v).",
+        "removed) or a number (0 when empty); an error while storing cuts the stack back, returns to the INPUT statement and refuses the reply; "
+        "the & forms of a numeric field read back what HEX$ / OCT$ print, for every value 0..32767 "
+        "(Props/C17.v, Proofs/Input.v, InputProto.v, Strings2.v).",
         "INPUT statements of every shape answered with replies from a grammar on model and crate; an independent specification of splitting, trimming, "
         "unquoting and numeric conversion predicts the prompt, the capitalisation flag, acceptance with the stored values, or REDO FROM START followed "
         "by the same prompt.",
